@@ -206,6 +206,19 @@ Bad_FuncSigClasses(M, F) ==
   \cup {"param" : i \in {j \in DOMAIN F.params : F.params[j].cls \notin Base \cup {"agg"}}}
 FuncSigClasses(M, F) == Bad_FuncSigClasses(M, F) = {}
 
+(* the header shows the signature the C source gives the function (csig: known for generated functions, SigGen.tla): *)
+(* class of the result and of every parameter - an aggregate passed by value is `:tag.N`, never a base class -,    *)
+(* number of parameters, variadic marker                                                                            *)
+Bad_SigMatchesC(F) ==
+  LET c == F.csig
+  IN IF ~c.known THEN {}
+     ELSE (IF F.rcls = c.rcls /\ F.rtag = c.rtag THEN {} ELSE {"ret"})
+          \cup (IF Len(F.params) = Len(c.pcls) THEN {} ELSE {"nparams"})
+          \cup {"param" \o ToString(i) : i \in {j \in DOMAIN F.params \cap DOMAIN c.pcls :
+                                                  F.params[j].cls # c.pcls[j] \/ F.params[j].tag # c.ptag[j]}}
+          \cup (IF F.variadic = c.variadic THEN {} ELSE {"variadic"})
+SigMatchesC(F) == Bad_SigMatchesC(F) = {}
+
 (* every :type named in the signature, by a call result or a call argument is defined earlier in the output *)
 Bad_TypesDefinedBeforeUse_F(M, F) ==
   LET mentions ==
@@ -364,6 +377,7 @@ FuncFailures(M, F) ==
   IN [fc |-> fc,
       failed |->
              R("FuncSigClasses", Bad_FuncSigClasses(M, F))
+        \cup R("SigMatchesC", Bad_SigMatchesC(F))
         \cup R("TypesDefinedBeforeUse", Bad_TypesDefinedBeforeUse_F(M, F))
         \cup R("LabelsUnique", IF LabelsUnique(F) THEN {} ELSE Bad_LabelsUnique(F))
         \cup R("JumpsTargetExisting", Bad_JumpsTargetExisting(F, fc.lb))
